@@ -187,6 +187,53 @@ def stepS (cfg : Cfg) (s : State) (op : Op) : State :=
 def init : State := {}
 def run (cfg : Cfg) (ops : List Op) : State := ops.foldl (stepS cfg) init
 
+/-! ## the real-thread stress search (`manual stress threads=N calls=K`)
+
+The harness lets `N` OS threads, each holding a clone of one service, make `K` calls in total and
+reports how many of them the layer decided "error" / "delay" / "pass". The model's unit of atomicity
+is the decision block of one request: the code draws all rolls of a request while it holds the
+generator's mutex, so — ASSUMING that mutual exclusion — every parallel execution decides like some
+sequential order of the `K` first polls, and by `decisions_are_seed_stream` the list of decisions is
+then the first `K` entries of the seed's stream whatever that order is. The model has no generator of
+its own (the draws of an ordinary first poll are handed to it); of a stress run it therefore checks
+what must hold for EVERY seed: every call took exactly one decision, and the extremes of the property
+(`stressAllowed`; `TR.Chaos.stress_tally_allowed` shows the tallies of every lawful seed's stream pass). -/
+
+structure Tally where
+  ne : Nat      -- calls decided "inject the error"
+  nl : Nat      -- calls decided "delay"
+  np : Nat      -- calls decided "pass"
+deriving DecidableEq, Repr, Inhabited
+
+def Decision.isLat : Decision → Bool
+  | .latency _ => true
+  | _ => false
+
+/-- how many of the decisions `l` are error / delay / pass -/
+def tally (l : List Decision) : Tally :=
+  { ne := l.countP (· == .error), nl := l.countP Decision.isLat, np := l.countP (· == .pass) }
+
+/-- `k` calls: one decision each; error rate 1 ⇒ all fail; error rate 0 ⇒ none fails; latency rate 0 ⇒
+none is delayed; latency rate 1 ⇒ none passes undelayed -/
+def stressAllowed (cfg : Cfg) (k : Nat) (t : Tally) : Bool :=
+  decide (t.ne + t.nl + t.np = k) &&
+  (!decide (cfg.eT = P53) || decide (t.ne = k)) &&
+  (!decide (cfg.eT = 0) || decide (t.ne = 0)) &&
+  (!decide (cfg.lT = 0) || decide (t.nl = 0)) &&
+  (!decide (cfg.lT = P53) || decide (t.np = 0))
+
+def stressLine (cfg : Cfg) (k : Nat) (t : Option Tally) : String :=
+  match t with
+  | some t =>
+      if stressAllowed cfg k t then s!"stress calls={k} errors={t.ne} delayed={t.nl} passed={t.np} anomalies=0"
+      else "choice-not-allowed"
+  | none => "choice-not-allowed"
+
+def parseTally (kv : Kv) : Option Tally :=
+  match kv.optNat "@ne", kv.optNat "@nl", kv.optNat "@np" with
+  | some a, some b, some c => some ⟨a, b, c⟩
+  | _, _, _ => none
+
 /-! ## line protocol -/
 
 def parseDraws (kv : Kv) : Option Draws :=
@@ -225,6 +272,11 @@ def machine : Machine where
     match ws with
     | "probe" :: "cfg" :: _ =>
         let s' := emit s [.probe s!"cfg eT={cfg.eT} lT={cfg.lT}"]
+        ((cfg, s'), s'.log.drop s.log.length)
+    | "manual" :: "stress" :: rest =>
+        -- a separate, freshly seeded instance: the requests of the case proper are not affected
+        let kv := parseKv rest
+        let s' := emit s [.raw (stressLine cfg (kv.nat "calls" 1000) (parseTally kv))]
         ((cfg, s'), s'.log.drop s.log.length)
     | _ =>
       match parseOp ws with
